@@ -48,9 +48,10 @@ def chk_step(root, i, mode):
         exp = hdscen.ref(sc)
         got = hdscen.impl(sc, keep)
         if mode[0] != "real" and prf.hits < 2 and got[0] == "ok":
-            cls = "hardened" if i >= H else "normal"
-            return "violation", True, [V("%s:PrvKeyNode.ckd:%s:prf-message-differs" % (P, cls),
-                                         "ckd(%d) did not call HMAC-SHA512 with BIP32's (key, data) for a %s child (chosen answer never consumed)" % (i, cls))]
+            # the implementation never asked the substituted function for BIP32's (key, data): either it computes the HMAC of a
+            # different message - then the REAL-function layer reports a wrong child for the same (parent, index) - or the seam
+            # did not reach it. No verdict from this case; run() turns a mostly unconsumed layer into exit 2.
+            return "injection-not-consumed", False, []
         if exp[0] != "ok":
             if mode != ("il", N):
                 raise HarnessError("reference refused a valid case %r %r: %s" % (root, i, exp[1]))
@@ -243,7 +244,17 @@ def run(ctx):
                 for i in I:
                     for mode in MODES:
                         cases.append({"k": "step", "root": root, "i": i, "mode": list(mode)})
-    ctx.product("single-step-product", cases, execute)
+    # two layers, so that a worker process that forks the isolated children of the substituted-PRF cases has never executed the
+    # implementation itself: a process-wide derivation cache filled under the REAL function would otherwise answer the same
+    # (parent, index) under the substituted one without asking it
+    ctx.product("single-step-product", [c for c in cases if c["mode"][0] == "real"], execute)
+    ctx.product("single-step-prf-corners", [c for c in cases if c["mode"][0] != "real"], execute)
+    oc = ctx.layers["single-step-prf-corners"]["outcomes"]
+    lost, total = oc.get("injection-not-consumed", 0), sum(v for k, v in oc.items() if k != "mode-not-applicable")
+    ctx.extra["prf_injections_not_consumed"] = lost
+    if total and lost * 2 > total:
+        raise HarnessError("seam lost: %d of %d substituted PRF answers were never consumed by the implementation (HMAC-SHA512 is reached through a "
+                           "route the harness does not own)" % (lost, total))
     # corner classes of the computed intermediates (vf/corners.py): IL, IR, child scalar, parent x coordinate, parent fingerprint -
     # every byte position 00 / ff and every first / last byte value, once for normal and once for hardened children
     from .. import corners
